@@ -94,7 +94,7 @@ def make_inputs(profile, seed, typed_keys=False):
     ci = {'scale': jnp.asarray(1.0 + i), 'key': jax.random.PRNGKey(10 + i), 'start': 200 + 20 * i}
     if typed_keys:
       ci['key'] = jax.random.key(10 + i)   # new-style typed key with the same key data
-    clients.append((CLIENT_IDS[i], batches, ci))
+    clients.append((CLIENT_IDS[i] if i < len(CLIENT_IDS) else b'k%d' % i, batches, ci))
   return shared, clients
 
 
@@ -422,6 +422,10 @@ def plan(ctx):
       for prog in ('A', 'B', 'C', 'D'):
         fc.append({'prog': prog, 'profile': list(profile), 'backends': backends, 'seed': ctx.seed,
                    'iter': sum(profile) % 2 == 1})
+  # more clients than any device count, several blocks, batch counts in no particular order
+  for prog in ('A', 'C', 'D'):
+    fc.append({'prog': prog, 'profile': [2, 0, 1, 2, 1, 0, 2, 2, 1, 0, 1, 2, 0, 0, 2, 1, 1], 'backends': backends, 'seed': ctx.seed,
+               'iter': True})
   for profile in ([1, 0, 2], [2, 2], [0]):
     for prog in ('A', 'B'):
       fc.append({'prog': prog, 'profile': profile, 'backends': backends, 'seed': ctx.seed, 'iter': False, 'typed_keys': True})
